@@ -16,7 +16,7 @@ use refchess::Pos;
 use serde_json::{json, Value};
 use std::time::Duration;
 
-pub const RULE: &str = "Layer A (in-process, model-based): op lists of 1..12 ops over one engine — NewGame, Resume (the position command that was current before the last ucinewgame, sent again, continued by 0..2 plies), SetPos (position command with FEN and move list; small positions, mates and stalemates included), Play(k plies of the same game, or one out-and-back cycle of reversible moves after which the same placement stands without its en-passant right), Search{depth 1..4, budget None | Nodes(k)} where k ranges over 0..2x the node count of the previous completed search (expiry before the first node, inside depth 1, between iterations, inside the last iteration; Nodes(0) is the image of 'movetime 0' / a clock at or below the reserve). A seventh of the cases (and all cases of the part 'twins') open with the twin scenario: a position with a legal en-passant capture or castle is searched, then the same placement without that right is set on the same engine and searched no deeper. Invariant after every Search: the returned move is a reference-legal move of the CURRENT position iff one exists, and none iff there is none. Layer B (black-box): scripts of ucinewgame?, 1..5 rounds of position + go (depth 1..3 pre-screened; movetime in {0,1,3,10,40}; clock sets wtime,btime 0..12000 with increments in any order, on both sides of the 5 s reserve) + isready; between consecutive readyok barriers exactly one line starts with 'bestmove', its move is legal in the position last set, or 0000 iff that position has no legal move. Non-trivial = a search on a position with >=2 legal moves that follows >=1 earlier search in the same engine/process or runs under a budget that expires before the requested depth completes; distinct by (history of ops / script text).";
+pub const RULE: &str = "Layer A (in-process, model-based): op lists of 1..12 ops over one engine — NewGame, Resume (the position command that was current before the last ucinewgame, sent again, continued by 0..2 plies), SetPos (position command with FEN and move list; small positions, mates and stalemates included), Play(k plies of the same game, or one out-and-back cycle of reversible moves after which the same placement stands without its en-passant right), Search{depth 1..4, budget None | Nodes(k)} where k ranges over 0..2x the node count of the previous completed search (expiry before the first node, inside depth 1, between iterations, inside the last iteration; Nodes(0) is the image of 'movetime 0' / a clock at or below the reserve). A seventh of the cases (and all cases of the part 'twins') open with the twin scenario: a position with a legal en-passant capture or castle is searched, then the same placement without that right is set on the same engine and searched no deeper. Invariant after every Search: the returned move is a reference-legal move of the CURRENT position iff one exists, and none iff there is none. Part 'selfplay' (layer A): a game played out on ONE engine the way a GUI uses it, from endings with a decisive material advantage, mate neighbourhoods and small positions: position (whole game restated), go depth 1..4 (varying from move to move, 15 % under a node budget), the answer is played and the other side's go follows on the same engine; 18 % human-like deviations (a random legal move instead of the answer), 12 % take-backs of one or two plies followed by another search; up to 30 plies or the end of the game — positions the engine has proved won or lost inside one search are the roots of later, often shallower, ones. Same invariant after every search. Layer B (black-box): scripts of ucinewgame?, 1..5 rounds of position + go (depth 1..3 pre-screened; movetime in {0,1,3,10,40}; clock sets wtime,btime 0..12000 with increments in any order, on both sides of the 5 s reserve) + isready; between consecutive readyok barriers exactly one line starts with 'bestmove', its move is legal in the position last set, or 0000 iff that position has no legal move. Non-trivial = a search on a position with >=2 legal moves that follows >=1 earlier search in the same engine/process or runs under a budget that expires before the requested depth completes; distinct by (history of ops / script text).";
 
 #[derive(Debug, Clone)]
 enum Op {
@@ -339,6 +339,166 @@ fn part_a(bytes: &[u8], stats: &mut Stats) -> Verdict {
     Ok(())
 }
 
+/// Endings with a decisive material advantage (either colour the attacker): the positions in which
+/// a game played out by the engine itself runs into forced mates, so that nodes the engine has
+/// proved lost or won inside one search are the roots of the next ones.
+fn g_decisive(s: &mut Src) -> Pos {
+    use refchess::{Color, Kind};
+    for _ in 0..8 {
+        let mut p = Pos::empty();
+        let att = if s.bool() { Color::W } else { Color::B };
+        let def = att.other();
+        let ak = s.below(64) as u8;
+        let mut dk = s.below(64) as u8;
+        if s.chance(50) {
+            // defender's king on the rim
+            dk = *s.pick(&[0u8, 1, 2, 3, 4, 5, 6, 7, 8, 16, 24, 32, 40, 48, 56, 57, 58, 59, 60, 61, 62, 63, 15, 23, 31, 39, 47, 55]);
+        }
+        if ak == dk || ((ak % 8) as i32 - (dk % 8) as i32).abs() <= 1 && ((ak / 8) as i32 - (dk / 8) as i32).abs() <= 1 {
+            continue;
+        }
+        p.sq[ak as usize] = Some((att, Kind::K));
+        p.sq[dk as usize] = Some((def, Kind::K));
+        let heavy = *s.pick(&[&[Kind::Q][..], &[Kind::R][..], &[Kind::R, Kind::R][..], &[Kind::Q, Kind::R][..], &[Kind::Q, Kind::N][..], &[Kind::R, Kind::B][..], &[Kind::Q, Kind::Q][..]]);
+        for k in heavy {
+            let q = s.below(64);
+            if p.sq[q].is_none() {
+                p.sq[q] = Some((att, *k));
+            }
+        }
+        if s.chance(35) {
+            let q = 8 + s.below(48);
+            if p.sq[q].is_none() {
+                p.sq[q] = Some((def, *s.pick(&[Kind::N, Kind::B, Kind::P, Kind::P])));
+            }
+        }
+        if s.chance(25) {
+            let q = 8 + s.below(48);
+            if p.sq[q].is_none() {
+                p.sq[q] = Some((att, Kind::P));
+            }
+        }
+        p.stm = if s.bool() { att } else { def };
+        gen::repair(&mut p);
+        if p.is_valid() && !p.legal_moves().is_empty() {
+            return p;
+        }
+    }
+    Pos::from_fen("8/8/8/4k3/8/8/1Q6/K7 w - - 0 1").unwrap().0
+}
+
+/// Layer A, part 'selfplay': a game played out on ONE engine, the way a GUI uses it — position
+/// (whole game restated), go, the answer is played, the other side's go follows on the same engine;
+/// now and then a human-like deviation (a random legal move instead of the answer) or a take-back of
+/// one or two plies followed by a search of another depth.  Depths vary from move to move, so a node
+/// the engine has examined deeply inside one search is later the root of a shallower one.
+fn part_selfplay(bytes: &[u8], stats: &mut Stats) -> Verdict {
+    let mut s = Src::new(bytes);
+    let start = match s.weighted(&[55, 15, 30]) {
+        0 => g_decisive(&mut s),
+        1 => gen::g_motif_n(&mut s, 7),
+        _ => gen::g_small(&mut s).0,
+    };
+    let mut fl = Flounder::new();
+    let base = format!("position fen {}", eng_fen(&start));
+    let mut game: Vec<(Pos, String)> = Vec::new(); // (position before the move, move)
+    let mut cur = start.clone();
+    let mut log: Vec<Value> = Vec::new();
+    let mut last_nodes: u64 = 200;
+    let plies = 4 + s.below(26);
+    let mut searches = 0usize;
+    let mut mates_seen = false;
+    for _ in 0..plies {
+        let mut cmd = base.clone();
+        if !game.is_empty() {
+            cmd.push_str(" moves");
+            for (_, m) in &game {
+                cmd.push(' ');
+                cmd.push_str(m);
+            }
+        }
+        log.push(json!(cmd));
+        if let Err(pn) = std::panic::catch_unwind(std::panic::AssertUnwindSafe(|| fl.verif_handle_command(&cmd))) {
+            return Err(Failure::new("command-panic", json!({"history": log, "panic": crate::panic_text(&pn)})));
+        }
+        let depth = 1 + s.weighted(&[20, 25, 30, 25]) as u8;
+        let budget = if s.chance(15) { Some((s.u16() as u64 * (2 * last_nodes + 2)) >> 16) } else { None };
+        log.push(json!({"search_depth": depth, "budget_nodes": budget}));
+        let r = std::panic::catch_unwind(std::panic::AssertUnwindSafe(|| go_through_handler(&mut fl, depth, budget, 600_000)));
+        let (mv, nodes, its) = match r {
+            Ok((Ok(mv), nodes, its)) => (mv, nodes, its),
+            Ok((Err(lines), _, _)) => return Err(Failure::new("not-exactly-one-bestmove-line", json!({"history": log, "bestmove_lines": lines}))),
+            Err(pn) => {
+                let msg = crate::panic_text(&pn);
+                if msg.contains("node hard cap") {
+                    stats.exclude("unbudgeted search over the node watchdog (engine discarded, case ended)");
+                    return Ok(());
+                }
+                return Err(Failure::new("command-panic", json!({"history": log, "panic": msg})));
+            }
+        };
+        stats.eval();
+        let legal: Vec<String> = cur.legal_moves().iter().map(|m| m.uci()).collect();
+        let d = json!({"history": log, "current_position": cur.fen4(), "returned": mv, "legal_moves": legal.len(), "nodes": nodes, "iterations_completed": its});
+        match &mv {
+            None if !legal.is_empty() => {
+                return Err(Failure::new(if its == 0 { "none-with-legal-moves-no-iteration-completed" } else { "none-with-legal-moves" }, d));
+            }
+            Some(m) if legal.is_empty() => return Err(Failure::new("move-in-terminal-position", json!({"history": log, "current_position": cur.fen4(), "returned": m}))),
+            Some(m) if !legal.contains(m) => return Err(Failure::new("illegal-bestmove", d)),
+            _ => {}
+        }
+        if budget.is_none() {
+            last_nodes = nodes.max(10);
+        }
+        if let Some(sc) = fl.verif_searcher().verif_timer().verif.infos.borrow().last().map(|i| i.1) {
+            if sc.abs() >= 32767 {
+                mates_seen = true;
+                stats.class("S_search_that_reported_a_forced_mate");
+            }
+        }
+        stats.class("S_searches_in_engine_played_games");
+        if legal.len() >= 2 && searches >= 1 {
+            stats.nontrivial(&format!("{:?}", log));
+        }
+        searches += 1;
+        let Some(best) = mv else {
+            stats.class("S_game_played_to_its_end");
+            break;
+        };
+        // what happens next in the game
+        match s.weighted(&[70, 18, 12]) {
+            1 => {
+                // a human-like deviation: some legal move instead of the answer
+                let lm = cur.legal_moves();
+                let m = gen::choose_move(&mut s, &cur, &lm).unwrap();
+                game.push((cur.clone(), m.uci()));
+                cur = cur.make(m);
+                stats.class("S_deviation_from_the_answer");
+            }
+            2 if !game.is_empty() => {
+                // take back one or two plies; the position searched before is searched again
+                let back = 1 + s.below(2.min(game.len()));
+                for _ in 0..back {
+                    let (p, _) = game.pop().unwrap();
+                    cur = p;
+                }
+                stats.class("S_take_back");
+            }
+            _ => {
+                let m = cur.find_uci(&best).unwrap();
+                game.push((cur.clone(), best.clone()));
+                cur = cur.make(m);
+            }
+        }
+    }
+    if mates_seen {
+        stats.class("S_games_with_a_forced_mate_seen");
+    }
+    stats.sample(|| json!({"layer": "A-selfplay", "ops": log}));
+    Ok(())
+}
+
 fn gen_go(s: &mut Src, cheap_depth: bool) -> String {
     match s.weighted(&[if cheap_depth { 30 } else { 0 }, 30, 40]) {
         0 => format!("go depth {}", 1 + s.below(3)),
@@ -484,6 +644,13 @@ pub fn run(tier: Tier, seed: u64, known: &Known) -> PropRun {
         run.failure = fl;
         return run;
     }
+    let part = Part { name: "selfplay", cases: tier.pick(1_200, 40_000), min_len: 24, max_len: 400, max_shrink: 200, threads: threads() };
+    let (st, fl) = run_part(&part, seed, known, part_selfplay);
+    run.stats.merge(st);
+    if fl.is_some() {
+        run.failure = fl;
+        return run;
+    }
     if crate::blackbox::engine_path().is_none() {
         run.inconclusive = Some("engine binary not built".into());
         return run;
@@ -545,6 +712,7 @@ pub fn replay(part: &str, bytes: &[u8], case: &Value, stats: &mut Stats) -> Verd
     }
     match part {
         "twins" => part_twins(bytes, stats),
+        "selfplay" => part_selfplay(bytes, stats),
         "B" => part_b(bytes, stats),
         _ => part_a(bytes, stats),
     }
